@@ -71,6 +71,9 @@ class WarnLedger(Ledger):
 def check(run, project):
     run.explanation = ("warn-mode variant of the failure-site ledger, owner-catch rule on the specialised traces, recovery "
                        "bookkeeping and pump completion rules on the source of the constraint classes and the pump")
+    from .c02 import primitive_event_once
+    from ..roles import MarshalRoles as _MR
+    primitive_event_once(run, _MR(project), "Y6")
     lg = WarnLedger(run, project, "warn")
     counts = {}
     for s in lg.sites:
